@@ -234,6 +234,11 @@ pub fn run_worker(args: &[String], draw: &dyn Fn(&str, u64, &str) -> Case, exec:
         }
     }
     let _ = std::fs::remove_file(&progress);
+    // time is simulated on the threads that execute runs (jammdb has no timers of its own, so
+    // these stay at zero on the unchanged tree)
+    let (sleeps, ns) = crate::simos::simulated_sleeps();
+    acc.counters.insert("simulated_sleeps".into(), sleeps);
+    acc.counters.insert("simulated_sleep_ms".into(), ns / 1_000_000);
     std::fs::write(out, serde_json::to_vec(&acc.to_json()).unwrap()).unwrap();
     cleanup();
     0
